@@ -30,6 +30,11 @@ builtin leaf (bool, Hashable, ...) and replaces nested leaves by their kind
 (scalar, None, top, user).  `v: T = None` is keyed `any|None` (pytype allows a
 None initial value for every T).  If the same key fires at all three sites of a
 pair it is reported once with site `all-sites`.
+
+Every disagreement is confirmed by posing the pair again in a module of its
+own (phase 2).  One that does not reproduce alone is a context-dependent
+disagreement (pytype's verdict depends on the cases that precede it in the
+module): reported as `context-dependent|<direction>|<value head>`.
 """
 from __future__ import annotations
 
@@ -231,7 +236,7 @@ def describe(ns, ann_text, val_text):
   except Exception as e:  # pylint: disable=broad-except
     return {"member": None, "note": f"eval failed: {type(e).__name__}: {e}"}
   m = M.member(val, ann)
-  d = {"member": m, "canon": canon(ann), "vdesc": vdesc(val)}
+  d = {"member": m, "canon": canon(ann), "vdesc": vdesc(val), "vhead": value_head(val)}
   if m is None:
     return d
   # pieces for localisation and keys
@@ -300,6 +305,7 @@ def child(arg):
   out = []
   for k in range(0, len(pairs), size):
     for d in judge_module(pairs[k:k + size], ns):
+      d["mod"] = k
       # compact: drop oracle detail of agreeing / undecided pairs
       dis = False
       if d.get("member") is not None:
@@ -310,6 +316,16 @@ def child(arg):
         for k2 in ("parts", "own", "why"):
           d.pop(k2, None)
       out.append(d)
+  return {"pairs": out}
+
+
+def child_isolated(arg):
+  """Every pair in a module of its own: the canonical posing of a case."""
+  ns = runtime_namespace()
+  out = []
+  for p in arg["pairs"]:
+    d = judge_module([tuple(p)], ns)[0]
+    out.append({"ann": d["ann"], "val": d["val"], "member": d.get("member"), "sites": d["sites"]})
   return {"pairs": out}
 
 
@@ -385,16 +401,35 @@ def run(tier, seed):
     tasks.append({"fn": "vf.checks.c02:child", "id": f"b{b}", "timeout": 7200,
                   "arg": {"pairs": pairs[k:k + per], "module_pairs": MODULE_PAIRS}})
   recs = []
+  batches = {t["id"]: t["arg"]["pairs"] for t in tasks}
   for res in pool.run_tasks(tasks):
     if not res.get("ok"):
       ck.child_failed(res, f"batch {res.get('task')}")
       continue
-    recs.extend(res["result"]["pairs"])
+    for d in res["result"]["pairs"]:
+      d["batch"] = res.get("task")
+      recs.append(d)
+  # phase 2: every disagreeing pair is posed again in a module of its own
+  cands = sorted({(d["ann"], d["val"]) for d in recs
+                  if any(verdict(d, s) in ("missed", "spurious") for s in SITES)})
+  iso = {}
+  if cands:
+    n2 = min(16, len(cands))
+    per2 = (len(cands) + n2 - 1) // n2
+    tasks2 = [{"fn": "vf.checks.c02:child_isolated", "id": f"iso{b}", "timeout": 7200,
+               "arg": {"pairs": cands[k:k + per2]}}
+              for b, k in enumerate(range(0, len(cands), per2))]
+    for res in pool.run_tasks(tasks2):
+      if not res.get("ok"):
+        ck.child_failed(res, f"isolation batch {res.get('task')}")
+        continue
+      for d in res["result"]["pairs"]:
+        iso[(d["ann"], d["val"])] = d
   import os, json
   if os.environ.get("C02_DUMP"):
     with open(os.environ["C02_DUMP"], "w") as f:
-      json.dump(recs, f)
-  evaluate(ck, recs)
+      json.dump({"recs": recs, "iso": list(iso.values())}, f)
+  evaluate(ck, recs, iso, batches)
   ck.count("pairs_generated", len(pairs))
   ck.extra["grid"] = {"annotations": len(anns), "values": len(values), "sites": 3}
   ck.exhaustive = False
@@ -411,7 +446,8 @@ def run(tier, seed):
   return ck.finish()
 
 
-def evaluate(ck, recs):
+def evaluate(ck, recs, iso=None, batches=None):
+  """iso: (ann, val) -> the same pair analysed in a module of its own (None: skip confirmation)."""
   recs = sorted(recs, key=lambda d: (d["ann"], d["val"]))
   keyer = Keyer(recs)
   fps = set()
@@ -434,11 +470,35 @@ def evaluate(ck, recs):
       if expect_error or "[" in d["ann"]:
         fps.add(common.fp([d["ann"], d["val"], site]))
       if v in ("missed", "spurious"):
-        per_site[site] = (v, keyer.sitefree(d, site, v))
+        if iso is not None:
+          alone = iso.get((d["ann"], d["val"]))
+          if alone is None:
+            ck.count("disagreements_without_isolated_rerun")
+            ck.inconclusive(f"no isolated re-run for {d['ann']} <- {d['val']}")
+            continue
+          if verdict(alone, site) != v:
+            # pytype's verdict on this case depends on the other cases of the module
+            ck.count("context_dependent_" + v)
+            ck.violation(f"context-dependent|{v}|{d['vhead']}", {
+                "annotation": d["ann"], "value": d["val"], "site": site, "direction": v,
+                "oracle_member": d["member"], "flagged_in_shared_module": d["sites"][site]["flagged"],
+                "flagged_alone": alone["sites"][site]["flagged"],
+                "module_pairs": ((batches or {}).get(d.get("batch")) or [])[
+                    d.get("mod", 0):d.get("mod", 0) + MODULE_PAIRS],
+                "note": "the disagreement only appears when the other cases of module_pairs share "
+                        "the module"})
+            continue
+        f1 = v == "missed" and site == "assign" and d["vdesc"] == "None"
+        per_site[site] = (v, keyer.sitefree(d, site, v), "any|None" if f1 else d["own"])
     if not per_site:
       continue
     groups = collections.defaultdict(list)
-    for site, (v, k) in per_site.items():
+    locs = {k for _, k, _ in per_site.values()}
+    if len(per_site) == 3 and len(locs) > 1 and len({o for _, _, o in per_site.values()}) == 1:
+      # all three sites disagree but localisation differs between them: the
+      # un-localised skeleton of the pair is the common mechanism
+      per_site = {s: (v, o, o) for s, (v, _, o) in per_site.items()}
+    for site, (v, k, _) in per_site.items():
       groups[(v, k)].append(site)
     for (v, k), sites in sorted(groups.items()):
       if len(sites) == 3:
@@ -469,6 +529,23 @@ def evaluate(ck, recs):
 def replay(rec):
   w = rec["witness"]
   ns = runtime_namespace()
+  if str(rec.get("key", "")).startswith("context-dependent"):
+    mp = [tuple(p) for p in w.get("module_pairs") or []]
+    target = (w["annotation"], w["value"])
+    if target not in mp:
+      print("witness without its module: re-run the check with the same seed")
+      return 2
+    dm = judge_module(mp, ns)[mp.index(target)]
+    da = judge_module([target], ns)[0]
+    vm, va = verdict(dm, w["site"]), verdict(da, w["site"])
+    print({"annotation": target[0], "value": target[1], "site": w["site"],
+           "oracle_member": dm.get("member"), "verdict_in_module": vm, "verdict_alone": va})
+    if vm in ("missed", "spurious") and rec.get("key") not in common.load_known(PID):
+      print(f"VIOLATION property={PID} replay=<replayed>")
+      print(f"  mechanism: {rec.get('key')}")
+      return 1
+    print("replay: no (unlisted) disagreement")
+    return 0
   d = judge_module([(w["annotation"], w["value"])], ns)[0]
   bad = [(s, verdict(d, s)) for s in w["sites"] if verdict(d, s) in ("missed", "spurious")]
   print({"annotation": w["annotation"], "value": w["value"], "oracle_member": d.get("member"),
